@@ -133,6 +133,7 @@ func RunProperty(cfg Config) int {
 	// ---- translator validation: native witness replay
 	validated := 0
 	witnessMismatch := 0
+	notComparable := 0
 	var allW []*Witness
 	for _, hr := range r.Results {
 		allW = append(allW, hr.Witnesses...)
@@ -148,6 +149,14 @@ func RunProperty(cfg Config) int {
 				continue
 			}
 			ok := o.Status == "ok" && eqStrs(o.Reached, w.Reached) && eqStrs(o.Asserts, w.Asserts) && eqStrs(o.Observe, w.Observe)
+			if !ok && (len(o.Unused) > 0 || len(o.Missing) > 0) && o.Status == "ok" {
+				// the native run asked for a different number of environment
+				// interactions (e.g. writes to the destination, which depend on the
+				// parity of real compressed sizes that the models do not reproduce):
+				// this witness cannot be compared, which is not a disagreement
+				notComparable++
+				continue
+			}
 			if ok {
 				validated++
 			} else {
@@ -364,26 +373,27 @@ func RunProperty(cfg Config) int {
 		"property_id": cfg.Prop, "tier": cfg.Tier, "seed": cfg.Seed, "level": "model_checking",
 		"coverage": map[string]interface{}{
 			"states": states, "transitions": transitions, "traces_validated_against_impl": validated + confirmed,
-			"samples": samples,
-			"explanation": "states = symbolic paths executed to their end (each stands for every concrete input satisfying its path condition); transitions = fork decisions + path ends; every assertion on every path is an SMT query pc ∧ ¬assert, unsat = holds",
-			"harnesses":   harnessEv,
-			"bounds":      bounds,
+			"samples":                          samples,
+			"explanation":                      "states = symbolic paths executed to their end (each stands for every concrete input satisfying its path condition); transitions = fork decisions + path ends; every assertion on every path is an SMT query pc ∧ ¬assert, unsat = holds",
+			"harnesses":                        harnessEv,
+			"bounds":                           bounds,
 			"functions_encoded_from_repo":      repoFuncs,
 			"functions_encoded_from_libraries": libFuncs,
 			"model_redirects":                  redirects,
 			"queries": map[string]interface{}{"feasibility": r.Stats.FeasQueries, "assertion": r.Stats.AssertQueries, "solver_unknown": r.Stats.Unknown,
 				"cross_checked_z3new_cvc5": cross, "cross_check_disagreements": disagree, "total_solver_calls": r.Queries},
-			"solver_s":               round1(r.SolverS),
-			"load_and_ssa_build_s":   round1(loadS),
-			"obligations":            totalObl,
-			"discharged":             decided - violations,
-			"reduced_bound":          reduced,
-			"inconclusive":           inconclusive,
-			"witness_replays":        validated,
-			"counterexample_replays": confirmed,
-			"known_findings_matched": len(knownHit),
-			"dropped_harness_files":  l.Dropped,
-			"exhaustive":             false,
+			"solver_s":                       round1(r.SolverS),
+			"load_and_ssa_build_s":           round1(loadS),
+			"obligations":                    totalObl,
+			"discharged":                     decided - violations,
+			"reduced_bound":                  reduced,
+			"inconclusive":                   inconclusive,
+			"witness_replays":                validated,
+			"witness_replays_not_comparable": notComparable,
+			"counterexample_replays":         confirmed,
+			"known_findings_matched":         len(knownHit),
+			"dropped_harness_files":          l.Dropped,
+			"exhaustive":                     false,
 		},
 		"assumptions": assumptionsFor(cfg.Prop),
 		"wall_s":      round1(time.Since(t0).Seconds()),
